@@ -727,4 +727,73 @@ theorem inline_array_text_core (tbl : List UnitRow) (k : Nat) (nm : Str) (a : Na
     (preCheck_blockNode tbl k nm ty dims s unit hunit) (by simpa only [blockNode, hds] using hinit)
   simpa only [blockNode, hds] using h
 
+/-! ### scalar definitions from the text to the value -/
+
+/-- a definition line with any literal form: the lexer returns the node with the text of the literal -/
+theorem determine_define_lit (k : Nat) (nm : Str) (a : Nat) (ty : TyD) (dims : Option (List DimD)) (b c : Nat)
+    (lit : Lit) (unit cm : Option (Nat × Str))
+    (hn : NameOk nm) (hd : DimsOk dims) (hu : ∀ n x, unit = some (n, x) → UnitOk x)
+    (htail : NoEsc (renderTail unit cm)) (hlit : lit.Ok) (hesc : NoEsc lit.render) (hs : ∀ ch ∈ lit.text, ch ≠ '$') :
+    determine (List.replicate k ' ' ++ (definePrefix nm a ty dims b c ++ (lit.render ++ renderTail unit cm))) =
+      .ok (blockNode k nm ty dims lit.text unit) := by
+  let v : ValD := { lit := lit, unit := unit, cm := cm }
+  let d : LineD := .define nm a ty dims b c v
+  have hdok : d.Ok := ⟨hn, hd, hlit, hu⟩
+  have hr : d.render = definePrefix nm a ty dims b c ++ (lit.render ++ renderTail unit cm) := by
+    rw [define_render_prefix]; rfl
+  have hesc' : NoEsc d.render := by
+    rw [hr]
+    exact NoEsc_append (NoEsc_definePrefix nm a ty dims b c hn hd) (NoEsc_append hesc htail)
+  have := determine_render k d hdok hesc'
+  rw [hr] at this
+  rw [this]
+  simp only [d, LineD.node, v, decode_noDollar lit.text hs, blockNode]
+
+/-- scalar definition, any literal form, from the line to the parse result -/
+theorem define_scalar_text_core (tbl : List UnitRow) (k : Nat) (nm : Str) (a : Nat) (ty : TyD) (b c : Nat)
+    (lit : Lit) (unit cm : Option (Nat × Str)) (v : Val)
+    (hn : NameOk nm) (hu : ∀ n x, unit = some (n, x) → UnitOk x) (htail : NoEsc (renderTail unit cm))
+    (hunit : ∀ n x, unit = some (n, x) → (ty.ty = .int ∨ ty.ty = .float) ∧ tbl.any (fun r => r.name = x) = true)
+    (hlit : lit.Ok) (hesc : NoEsc lit.render) (hs : ∀ ch ∈ lit.text, ch ≠ '$')
+    (hne : (lit.text.isEmpty && ty.ty != .str) = false) (hcast : castText ty.ty none lit.text = .ok v) :
+    parseLines (mkParams tbl)
+        [List.replicate k ' ' ++ (definePrefix nm a ty none b c ++ (lit.render ++ renderTail unit cm))] =
+      .ok [{ name := nm, ty := ty.ty, info := ty.info, dims := none, units := unit.map Prod.snd,
+             value := some v, declared := false }] := by
+  have hdet := determine_define_lit k nm a ty none b c lit unit cm hn trivial hu htail hlit hesc hs
+  have hinit : initValue (mkParams tbl) ty.ty none (some (.text lit.text)) = .ok (some v) := by
+    simp only [initValue, hne, Bool.false_eq_true, if_false, mkParams, hcast, bind, Except.bind]
+  have h := parseLines_single_define (mkParams tbl) _ _ ty.ty nm v hdet rfl rfl
+    (preCheck_blockNode tbl k nm ty none lit.text unit hunit) (by simpa only [blockNode, dimsValue] using hinit)
+  simpa only [blockNode, dimsValue] using h
+
+theorem signText_chars (sg : Option Bool) : ∀ c ∈ signText sg, c = '-' ∨ c = '+' := by
+  intro c hc
+  cases sg with
+  | none => simp [signText] at hc
+  | some b => cases b <;> simp [signText] at hc <;> simp [hc]
+
+/-- a word made of digits, signs, point and exponent letters is a bare literal without escapes -/
+theorem numWord_lit (s : Str) (hne : s ≠ [])
+    (hch : ∀ c ∈ s, c.isDigit = true ∨ c = '-' ∨ c = '+' ∨ c = '.' ∨ c = 'e' ∨ c = 'E') :
+    Lit.Ok (.bare s) ∧ NoEsc s ∧ ∀ ch ∈ s, ch ≠ '$' := by
+  have key : ∀ c ∈ s, c ≠ '{' ∧ c ≠ '(' ∧ c ≠ '"' ∧ c ≠ '\'' ∧ c ≠ '#' ∧ isWs c = false ∧ c ≠ '\\' ∧ c ≠ '\n' ∧ c ≠ '$' := by
+    intro c hc
+    rcases hch c hc with hd | rfl | rfl | rfl | rfl | rfl
+    · have hw : isWs c = false := by
+        have := (digit_plain hd).1; simp only [Bool.or_eq_false_iff] at this; exact this.2
+      refine ⟨?_, ?_, ?_, ?_, ?_, hw, ?_, ?_, ?_⟩ <;> (intro e; rw [e] at hd; exact absurd hd (by decide))
+    all_goals decide
+  obtain ⟨c0, r0, rfl⟩ : ∃ c0 r0, s = c0 :: r0 := by
+    cases s with | nil => exact absurd rfl hne | cons a b => exact ⟨a, b, rfl⟩
+  have k0 := key c0 (by simp)
+  exact ⟨⟨⟨c0, r0, rfl, k0.1, k0.2.1, k0.2.2.1, k0.2.2.2.1⟩, fun c hc => ⟨(key c hc).2.2.2.2.1, (key c hc).2.2.2.2.2.1⟩⟩,
+    fun c hc => ⟨(key c hc).2.2.2.2.2.2.1, (key c hc).2.2.2.2.2.2.2.1⟩, fun c hc => (key c hc).2.2.2.2.2.2.2.2⟩
+
+theorem floatD_render_ne (f : FloatD) (hf : f.Ok) : f.render ≠ [] := by
+  intro h
+  have := castFloat_lit f hf
+  rw [h] at this
+  simp [castFloat, hasOdd, splitSign, parseMantissa, lower] at this
+
 end SciVerif.C13
